@@ -32,23 +32,29 @@ VARIABLES ev,        \* GNode::events_: sequence of [r |-> rate, k |-> "hop" | "
           sov,       \* huffmanTree::sum_of_values (persists between builds)
           nb,        \* number of MakeHuffTree calls so far
           out,       \* observable result of the last MakeHuffTree
+          sat,       \* a Chargecarrier has been put on this node (Chargecarrier::settoNote)
           h          \* history: call records with the expected observation after each call
-vars == <<ev, esc, fresh, sov, nb, out, h>>
+vars == <<ev, esc, fresh, sov, nb, out, sat, h>>
+
+\* calls that count towards Depth (putting the carrier on the node is free, see Sit)
+Calls == Len(h) - (IF sat THEN 1 ELSE 0)
+\* what the carrier sitting on the node reports as its escape rate: the node's CURRENT one
+CarView(e) == IF sat THEN e ELSE -1
 
 Rates == [i \in 1..Len(ev) |-> ev[i].r]
 SpecSum == SumSeq(Rates, Len(ev))
 
 Init == /\ ev = <<>> /\ esc = 0 /\ fresh = FALSE /\ sov = 0 /\ nb = 0
-        /\ out = [built |-> FALSE] /\ h = <<>>
+        /\ out = [built |-> FALSE] /\ sat = FALSE /\ h = <<>>
 
 \* room is kept for InitEscapeRate + MakeHuffTree, histories that cannot reach a build are pruned
 Add(kind) ==
-  /\ Len(h) + 3 <= Depth
+  /\ Calls + 3 <= Depth
   /\ \E r \in RateSet :
        /\ ev' = Append(ev, [r |-> r, k |-> kind])
        /\ h' = Append(h, [a |-> kind, r |-> r])
   /\ fresh' = FALSE
-  /\ UNCHANGED <<esc, sov, nb, out>>
+  /\ UNCHANGED <<esc, sov, nb, out, sat>>
 AddHop == Add("hop")        \* GNode::AddEvent
 AddDecay == Add("decay")    \* GNode::AddDecayEvent
 
@@ -56,15 +62,15 @@ AddDecay == Add("decay")    \* GNode::AddDecayEvent
 RECURSIVE EscapeFrom(_, _)
 EscapeFrom(acc, k) == IF k > Len(ev) THEN acc ELSE EscapeFrom(acc + ev[k].r, k + 1)
 InitEscape ==
-  /\ Len(h) + 2 <= Depth /\ ev # <<>> /\ ~fresh
+  /\ Calls + 2 <= Depth /\ ev # <<>> /\ ~fresh
   /\ esc' = EscapeFrom(0, 1)
   /\ fresh' = TRUE
-  /\ h' = Append(h, [a |-> "init", esc |-> SpecSum])
-  /\ UNCHANGED <<ev, sov, nb, out>>
+  /\ h' = Append(h, [a |-> "init", esc |-> SpecSum, car |-> CarView(SpecSum)])
+  /\ UNCHANGED <<ev, sov, nb, out, sat>>
 
 \* hTree.setEvents(&events_); hTree.makeTree()
 MakeTree ==
-  /\ Len(h) + 1 <= Depth /\ fresh
+  /\ Calls + 1 <= Depth /\ fresh
   /\ LET s == (IF ResetSum THEN 0 ELSE sov) + SumSeq(Rates, Len(ev))   \* sum_of_values
          t == BuildTree(Rates)
      IN  /\ sov' = s
@@ -75,10 +81,18 @@ MakeTree ==
   /\ nb' = nb + 1
   /\ h' = Append(h, [a |-> "make", nb |-> nb + 1, rates |-> Rates,
                      kinds |-> [i \in 1..Len(ev) |-> ev[i].k],
-                     sum |-> SpecSum, exp |-> Rates, esc |-> SpecSum])
-  /\ UNCHANGED <<ev, esc, fresh>>
+                     sum |-> SpecSum, exp |-> Rates, esc |-> SpecSum, car |-> CarView(SpecSum)])
+  /\ UNCHANGED <<ev, esc, fresh, sat>>
 
-Next == AddHop \/ AddDecay \/ InitEscape \/ MakeTree
+\* Chargecarrier::settoNote(&node): a carrier is injected on the node after a build; the node may be
+\* modified and rebuilt afterwards (kmclifetime adds the decay events after LoadGraph).  From then on
+\* Chargecarrier::getCurrentEscapeRate() must be the node's current escape rate after every
+\* InitEscapeRate - waiting time and carrier choice use it while the destination lookup uses the tree.
+Sit == /\ ~sat /\ Len(h) > 0 /\ h[Len(h)].a = "make" /\ Calls + 3 <= Depth
+       /\ sat' = TRUE /\ h' = Append(h, [a |-> "sit"])
+       /\ UNCHANGED <<ev, esc, fresh, sov, nb, out>>
+
+Next == AddHop \/ AddDecay \/ InitEscape \/ MakeTree \/ Sit
 Spec == Init /\ [][Next]_vars
 
 LastIsMake == Len(h) > 0 /\ h[Len(h)].a = "make"
